@@ -95,7 +95,7 @@ def _chunks(obs, k):
 
 
 def _leaf(obs, funcs, nchunks=16, require=()):
-    jobs = [dict(kind='leaf', name='leaf-chunk-%d' % i, obligations=c, functions=funcs, budget_s=900, ob_budget_s=200)
+    jobs = [dict(kind='leaf', name='leaf-chunk-%d' % i, obligations=c, functions=funcs, budget_s=1800, ob_budget_s=900)
             for i, c in enumerate(_chunks(obs, nchunks))]
     return dict(jobs=jobs, level_text=LEVEL_LEAF, assumptions=LEAF_ASSUME, require_reach=list(require))
 
@@ -114,7 +114,7 @@ def C12(tier):
     ps = PRECISIONS_Q if tier != 'thorough' else PRECISIONS_T
     obs = [[law, {'p': p}] for p in ps for law in laws.FIXED_LAWS]
     D = 6 if tier != 'thorough' else 12
-    obs += [[law, {'D': D}] for law in laws.RATIONAL_LAWS]
+    obs += [[law, {'D': (D if law not in ('rt_div', 'rt_muldiv') else min(D, 8))}] for law in laws.RATIONAL_LAWS]
     r = _leaf(obs, FIXED_FUNCS + RAT_FUNCS, require=list(laws.FIXED_LAWS) + list(laws.RATIONAL_LAWS))
     r['bounds'] = dict(precisions=ps, operands='unbounded', rational_denominators='1..%d' % D, divisor_numerators='-%d..%d, nonzero' % (D, D))
     return r
